@@ -13,10 +13,44 @@ any of the patches has a path that belongs to quilt itself (`Own`: below `.pc`, 
 namespace RQ.Compose
 open RQ RQ.Push RQ.Spec RQ.Flush RQ.Agree RQ.Parse RQ.Write
 
+/-- `Q` holds for the value, if there is one -/
+def optAll {α : Type} (o : Option α) (Q : α → Prop) : Prop :=
+  match o with
+  | some x => Q x
+  | none => True
+
+/-- there is a value and `Q` holds for it -/
+def optAny {α : Type} (o : Option α) (Q : α → Prop) : Prop :=
+  match o with
+  | some x => Q x
+  | none => False
+
+instance {α : Type} (o : Option α) (Q : α → Prop) [∀ x, Decidable (Q x)] : Decidable (optAll o Q) :=
+  match o with
+  | some x => inferInstanceAs (Decidable (Q x))
+  | none => isTrue trivial
+
+instance {α : Type} (o : Option α) (Q : α → Prop) [∀ x, Decidable (Q x)] : Decidable (optAny o Q) :=
+  match o with
+  | some x => inferInstanceAs (Decidable (Q x))
+  | none => isFalse id
+
+theorem optAll_iff {α : Type} (o : Option α) (Q : α → Prop) : optAll o Q ↔ ∀ x, o = some x → Q x := by
+  cases o with
+  | none => exact ⟨fun _ _ h => (nomatch h), fun _ => trivial⟩
+  | some y => exact ⟨fun h x e => by cases e; exact h, fun h => h y rfl⟩
+
+theorem optAny_iff {α : Type} (o : Option α) (Q : α → Prop) : optAny o Q ↔ ∃ x, o = some x ∧ Q x := by
+  cases o with
+  | none => exact ⟨fun h => h.elim, fun ⟨_, h, _⟩ => (nomatch h)⟩
+  | some y => exact ⟨fun h => ⟨y, rfl, h⟩, fun ⟨x, e, h⟩ => by cases e; exact h⟩
+
+instance (k : Key) : Decidable (isPcKey k) := inferInstanceAs (Decidable (k.head? = some [46, 112, 99]))
+
 /-- the paths that belong to quilt itself: below `.pc`, the working directory, the series file, and everything
 inside or above the patches directory -/
 def Own (cfg : Cfg) (k : Key) : Prop :=
-  isPcKey k ∨ k = [] ∨ k = seriesKey ∨ ∃ d, safeKey cfg.patchesDir = some d ∧ (d <+: k ∨ k <+: d)
+  isPcKey k ∨ k = [] ∨ k = seriesKey ∨ optAny (safeKey cfg.patchesDir) (fun d => d <+: k ∨ k <+: d)
 
 structure CleanEntry (cfg : Cfg) (fs : FS) (e : Series.Entry) : Prop where
   /-- the patch file is not below `.pc` -/
@@ -58,6 +92,48 @@ theorem Clean.transfer {cfg : Cfg} {fs fs' : FS} {range : List Series.Entry} (h 
   obtain ⟨h1, h2, h3⟩ := h e he
   exact ⟨h1, h2, by rw [hp e he]; exact h3⟩
 
+/-! ### `Clean` is decidable -/
+
+instance (cfg : Cfg) (k : Key) : Decidable (Own cfg k) :=
+  inferInstanceAs (Decidable (isPcKey k ∨ k = [] ∨ k = seriesKey ∨ optAny (safeKey cfg.patchesDir) _))
+
+def NamesSatD (P : Key → Prop) (fp : PFilePatch) : Prop :=
+  optAll fp.old (fun n => optAll (safeKey n) P) ∧ optAll fp.new (fun n => optAll (safeKey n) P)
+
+theorem namesSat_iff (P : Key → Prop) (fp : PFilePatch) : NamesSat P fp ↔ NamesSatD P fp := by
+  unfold NamesSat NamesSatD
+  simp only [optAll_iff]
+  constructor
+  · intro h
+    exact ⟨fun n hn k hk => h n (.inl hn) k hk, fun n hn k hk => h n (.inr hn) k hk⟩
+  · rintro ⟨h1, h2⟩ n (hn | hn) k hk
+    · exact h1 n hn k hk
+    · exact h2 n hn k hk
+
+def CleanEntryD (cfg : Cfg) (fs : FS) (e : Series.Entry) : Prop :=
+  optAll (patchKey cfg e.name) (fun pk => ¬ isPcKey pk) ∧
+  optAll (safeKey e.name) (fun p => p ≠ [] ∧ p.head? ≠ some appliedName) ∧
+  optAny (patchOf fs cfg e) (fun patch => ∀ fp ∈ patch.fps, NamesSatD (fun k => ¬ Own cfg k) fp)
+
+instance (P : Key → Prop) [DecidablePred P] (fp : PFilePatch) : Decidable (NamesSatD P fp) :=
+  inferInstanceAs (Decidable (_ ∧ _))
+
+instance (cfg : Cfg) (fs : FS) (e : Series.Entry) : Decidable (CleanEntryD cfg fs e) :=
+  inferInstanceAs (Decidable (_ ∧ _ ∧ _))
+
+theorem cleanEntry_iff (cfg : Cfg) (fs : FS) (e : Series.Entry) : CleanEntry cfg fs e ↔ CleanEntryD cfg fs e := by
+  unfold CleanEntryD
+  rw [optAll_iff, optAll_iff, optAny_iff]
+  constructor
+  · rintro ⟨h1, h2, patch, hp, h3⟩
+    exact ⟨h1, h2, patch, hp, fun fp hfp => (namesSat_iff _ fp).mp (h3 fp hfp)⟩
+  · rintro ⟨h1, h2, patch, hp, h3⟩
+    exact ⟨h1, h2, patch, hp, fun fp hfp => (namesSat_iff _ fp).mpr (h3 fp hfp)⟩
+
+instance (cfg : Cfg) (fs : FS) (range : List Series.Entry) : Decidable (Clean cfg fs range) :=
+  decidable_of_iff (∀ e ∈ range, CleanEntryD cfg fs e)
+    ⟨fun h e he => (cleanEntry_iff cfg fs e).mpr (h e he), fun h e he => (cleanEntry_iff cfg fs e).mp (h e he)⟩
+
 /-! ### patch files stay what they are -/
 
 theorem patchOf_of_readFile {a b : FS} {cfg : Cfg} {e : Series.Entry}
@@ -83,6 +159,7 @@ theorem own_of_prefix_patchKey {cfg : Cfg} {name : Bytes} {pk t : Key} (hk : pat
   · rename_i d n hd _
     cases hk
     right; right; right
+    rw [optAny_iff]
     refine ⟨d, hd, ?_⟩
     have hdp : d <+: d ++ n := List.prefix_append d n
     by_cases hl : t.length ≤ d.length
@@ -282,5 +359,61 @@ theorem specRun_compose (cfg : Cfg) (hdry : cfg.dryRun = false) (fs : FS) (r1 r2
           simp [hx, this]
       · rw [eA2, eB2, happ1.2, appendView_appendView, ← namesBytes_append, hk1, List.take_length, hkA,
           Nat.add_comm pB.k, List.take_length_add_append]
+
+/-- **the oracle is a congruence for "same tree outside `.pc`"**: two trees that agree outside `.pc` (inode numbers
+ignored) and have the same patch files are refused together, and otherwise end up agreeing outside `.pc`.  (This is
+where a statement "the driver's disk agrees with the oracle's tree outside `.pc`, directories included" would plug in
+to carry `specRun_compose` to two consecutive runs of the driver model.) -/
+theorem specRun_congr (cfg : Cfg) (hdry : cfg.dryRun = false) {a b : FS} (range : List Series.Entry)
+    (hab : OutsidePc a b) (hpf : ∀ e ∈ range, patchOf b cfg e = patchOf a cfg e) (hclean : Clean cfg a range) :
+    (Refused cfg a range ↔ Refused cfg b range) ∧
+    (¬ Refused cfg a range → OutsidePc (specRun cfg a range).fs (specRun cfg b range).fs) := by
+  have hcong := applyRangeTree_congr cfg a b 0 [] range (fun e he => (hpf e he).symm) hclean.namesOut
+    (start a) (start b) ⟨hab, rfl, rfl, rfl, rfl⟩
+  refine ⟨?_, ?_⟩
+  · unfold Refused
+    cases hA : applyRangeTree cfg a range (start a) with
+    | error e => simp [hcong.err_left hA]
+    | ok pA =>
+      obtain ⟨pB, hB, _⟩ := hcong.ok_left hA
+      simp [hB]
+  · intro hnr
+    unfold Refused at hnr
+    cases hA : applyRangeTree cfg a range (start a) with
+    | error e => exact absurd hA hnr
+    | ok pA =>
+      obtain ⟨pB, hB, hfs, hk, hrejs, hfailed, hbk⟩ := hcong.ok_left hA
+      have hrejA : RejsOut pA.rejs := clean_rejsOut hclean (p := start a) (fun _ hm => by cases hm) hA
+      have hoA := run_outside hdry hA
+      have hoB := run_outside hdry hB
+      have hmid : OutsidePc (afterRejects pA.fs pA.rejs.reverse) (afterRejects pB.fs pB.rejs.reverse) := by
+        rw [← hrejs]
+        exact afterRejects_congr hrejA.reverse hfs
+      exact hoA.outside.symm.trans (hmid.trans hoB.outside)
+
+/-! ## a failing first push ends the push where it is -/
+
+/-- if not all of `r₁` applies, pushing `r₁ ++ r₂` is pushing `r₁` (same tree, same reject files, same backups, same
+`.pc/applied-patches`, exit status 1) — for every configuration, dry runs included -/
+theorem specRun_append_of_not_all (cfg : Cfg) (fs : FS) (r1 r2 : List Series.Entry)
+    (h : ∀ p, applyRangeTree cfg fs r1 (start fs) = .ok p → p.k ≠ r1.length) :
+    specRun cfg fs (r1 ++ r2) = specRun cfg fs r1 := by
+  unfold specRun
+  rw [applyRangeTree_append]
+  cases hp : applyRangeTree cfg fs r1 (start fs) with
+  | error e => rfl
+  | ok p1 =>
+    have hne := h p1 hp
+    obtain ⟨_, hle, _⟩ := applyRangeTree_k cfg fs r1 _ _ hp
+    have hk0 : (start fs).k = 0 := rfl
+    rw [hk0] at hle ⊢
+    simp only [Nat.zero_add] at hle ⊢
+    rw [if_neg hne]
+    have e1 : (p1.k == (r1 ++ r2).length) = false := by
+      simp only [List.length_append, beq_eq_false_iff_ne, ne_eq]; omega
+    have e2 : (p1.k == r1.length) = false := by simpa using hne
+    have e3 : (r1 ++ r2).take p1.k = r1.take p1.k := List.take_append_of_le_length hle
+    unfold finishSpec
+    simp only [e1, e2, e3, bne]
 
 end RQ.Compose
